@@ -19,7 +19,7 @@
 #include <gmssl/x509_crl.h>
 
 #define CAN 4096
-#define MAXS 96
+#define MAXS 128
 typedef struct { uint8_t *p; size_t n; char tag[24]; int tls; } sample_t;
 static sample_t S[MAXS]; static int NS;
 static uint8_t magic[16];
@@ -67,6 +67,14 @@ static void build_samples(opctx_t *c) {
 	rl = 0; if (tls_record_set_alert(rec, &rl, 2, 40) == 1) ADD_REC("alert");
 	rl = 0; if (tls_record_set_change_cipher_spec(rec, &rl) == 1) ADD_REC("ccs");
 	rl = 0; if (tls_record_set_application_data(rec, &rl, c->msg, c->msglen) == 1) ADD_REC("appdata");
+	{ /* payload sizes around and above the printers' internal thresholds (64 / 256 / 1024 byte cut-offs) */
+		static const size_t szs[] = { 1, 63, 64, 65, 255, 256, 257, 1024, 1500 }; size_t k; uint8_t *big = malloc(2048), *rec2 = malloc(2048 + 16); char tg[24];
+		for (k = 0; k < sizeof szs / sizeof szs[0]; k++) {
+			ctx_bytes(c, big, szs[k]); tls_record_set_protocol(rec2, TLS_protocol_tls12); rl = 0;
+			if (tls_record_set_application_data(rec2, &rl, big, szs[k]) == 1) { snprintf(tg, sizeof tg, "appdata%zu", szs[k]); add_sample(tg, rec2, rl, 1); }
+		}
+		free(big); free(rec2);
+	}
 	free(b); ob_free(&o);
 }
 
